@@ -33,6 +33,9 @@ ASSUMPTIONS = []
 
 SENT = ['<zq7 x="1">&zq;\'"', "a<b", "x&y", '"q"', "it's", "<script>alert(1)</script>", "</div>", "k`e`y", "a>b"]
 PLAIN_KEYS = ["a", "b", "c", "name", "items", "opts", "x1", "A", "long_key_name"]
+# long sibling keys that differ only in the middle (anything that abbreviates long texts merges them)
+LONG_KEYS = ["configuration_" + m + "_for_the_solver_settings" for m in ("alpha", "bravo", "gamma")] + \
+            ["k" * 40 + "1" + "z" * 40, "k" * 40 + "2" + "z" * 40]
 DOCS = [None, None, {"description": ["plain text"], "examples": []},
         {"description": ["uses `code` and <b>bold</b> & more"], "examples": ["`x = 1`", "a < b"]},
         {"description": ["unbalanced ` tick", "two `a` and `b`"], "examples": ['say "hi"', "it's"]},
@@ -134,7 +137,7 @@ def gen_schema(rng, tier, int_keys=None):
             kind = "map"
             n = rng.randint(1, 3)
             keys = []
-            pool = PLAIN_KEYS + (SENT if rng.random() < 0.4 else [])
+            pool = PLAIN_KEYS + (SENT if rng.random() < 0.4 else []) + (LONG_KEYS * 2 if rng.random() < 0.25 else [])
             for _ in range(n):
                 k = rng.choice(pool)
                 if k not in keys:
